@@ -438,7 +438,7 @@ func c11Scenarios(thorough bool) []c11Case {
 
 func checkC11(c *ev.Ctx) {
 	c11Setup()
-	c.Rule("engine E2 over real goroutines calling one real shimagent.Server (built by shimagent.New through the dial seam; sync of shimagent, yubiagent and x/crypto's agent client replaced by scheduler-visible primitives; every Write/Read on the upstream connection is a scheduling point): every unordered pair (incl. equal pairs) of {List, Signers, Sign(K1), Sign(h1), Add, Remove, RemoveAll, AddHardCert, Lock, Unlock, Extension, Forward} on two threads x both upstream modes, Unlock racing with every operation from a locked start, 12 three-thread scenarios, and 8 server-level scenarios (one yubiagent.ServeAgent thread per client connection on scheduler-visible pipes in front of one shared server/shim, preemption bound 2 and at most 3 departures from the canonical order); initial state with an expired certificate in the underlying agent AND one in memory (purging happens inside the operations) and an uncached YSSHCA certificate; preemption bound 2 (thorough 3; three-thread scenarios additionally at most 3 (4) departures from the canonical order). Oracles on every complete execution: all threads finish, connection-exclusion monitor, own-reply check (digest echo), brute-force linearizability against all n! sequential orders computed with the same real code. states = executions, transitions = scheduling events. Declared side pass (sampling, not deciding): the same bodies free-running under -race with 2..16 goroutines. non-trivial = execution with at least one branch point; distinct by (scenario, schedule)")
+	c.Rule("engine E2 over real goroutines calling one real shimagent.Server (built by shimagent.New through the dial seam; sync of shimagent, yubiagent and x/crypto's agent client replaced by scheduler-visible primitives; every Write/Read on the upstream connection is a scheduling point): every unordered pair (incl. equal pairs) of {List, Signers, Sign(K1), Sign(h1), Add, Remove, RemoveAll, AddHardCert, Lock, Unlock, Extension, Forward} on two threads x both upstream modes, Unlock racing with every operation from a locked start, 12 three-thread scenarios, and 8 server-level scenarios (one yubiagent.ServeAgent thread per client connection on scheduler-visible pipes in front of one shared server/shim, preemption bound 2 and at most 3 departures from the canonical order); initial state with an expired certificate in the underlying agent AND one in memory (purging happens inside the operations) and an uncached YSSHCA certificate; two-thread scenarios: ALL interleavings (unbounded; the shim's big lock leaves at most ~130 complete schedules per pair, 6 952 in total); three-thread and server-level scenarios: preemption bound 2 (thorough 3) and at most 3 (4) departures from the canonical order. Oracles on every complete execution: all threads finish, connection-exclusion monitor, own-reply check (digest echo), brute-force linearizability against all n! sequential orders computed with the same real code. states = executions, transitions = scheduling events. Declared side pass (sampling, not deciding): the same bodies free-running under -race with 2..16 goroutines. non-trivial = execution with at least one branch point; distinct by (scenario, schedule)")
 	c.Assume("scheduling points at synchronisation and connection operations suffice provided there is no data race; data races are looked for by the separate free-running -race pass", "2-3 threads with one operation each; 4-16 goroutines only in the race pass")
 	if c.ReplayCase != nil {
 		var sk c11SrvCase
@@ -493,10 +493,13 @@ func checkC11(c *ev.Ctx) {
 				continue
 			}
 			dev := -1
+			b := bound
 			if len(k.Ops) > 2 {
 				dev = bound + 1
+			} else if os.Getenv("VERIF_C11_BOUND2") == "" {
+				b = -1 // two threads: ALL interleavings (the shim's big lock keeps the number of real choices small)
 			}
-			c11Explore(c, k, bound, dev)
+			c11Explore(c, k, b, dev)
 			if i%29 == 0 {
 				c.Sample(k)
 			}
